@@ -539,6 +539,43 @@ def check_value_getter(res, facts):
     return n
 
 
+_DELTA = [0]
+
+
+def relax_casts(ctx, term):
+    """Every saturating float -> int cast f2i(e) in `term` whose argument provably stays inside the target range and is
+    non-negative is replaced by e - d with a fresh d in [0, 1] (truncation of a non-negative real).  Returns (relaxed
+    polynomial, context knowing the d's) or None when a cast cannot be relaxed (possible saturation / sign unknown)."""
+    c2 = ctx.copy()
+    mapping = {}
+    for a in as_poly(term).atoms():
+        if a[0] != 'f2i':
+            continue
+        e, tlo, thi = a[1], a[2], a[3]
+        lo, hi = ctx.rng(e)
+        if lo < 0 or lo < tlo or hi > thi:
+            return None
+        _DELTA[0] += 1
+        d = c2.sym_range('cast_delta#%d' % _DELTA[0], 0, 1)
+        mapping[a] = e - d
+    return as_poly(term).subst(mapping), c2
+
+
+def within(ctx, term, spec, lo, hi_poly=None, hi=None):
+    """lo <= term - spec <= hi (or <= hi_poly), with casts relaxed: the tolerance form of "the code computes trunc(spec)" """
+    r = relax_casts(ctx, term)
+    if r is None:
+        return False
+    t2, c2 = r
+    d = t2 - spec
+    dl, _ = c2.rng(d)
+    if dl < lo:
+        return False
+    if hi_poly is not None:
+        return c2.rng(d - hi_poly)[1] <= 0
+    return c2.rng(d)[1] <= hi
+
+
 def inc_spec(total, period, fs):
     """trunc(2^T / (period * fs)) as the term the code must compute (saturating f32->u32 cast)"""
     return Poly.const(1 << total) * inv_poly(period) * inv_poly(fs)
@@ -610,7 +647,11 @@ def check_tick(res, facts, prop):
             if timing:
                 exp_inc_real = inc_spec(total, period, fs)
                 ok_inc = isinstance(inc1, Num) and inc1.term == t_f2i(exp_inc_real, 0, 2 ** 32 - 1, o.ctx)
-                res.ob('R-INC', inst0 + '->%s' % s1, ok_inc, 'increment programmed on this tick = %r; expected trunc(2^%d / (%s * fs))' % (inc1, total, TIME_FIELD[state]), where, key='R-INC:%s->%s' % (inst0, s1))
+                if not ok_inc and isinstance(inc1, Num):
+                    # tolerance form of the statement: never earlier (increment <= 2^T/N) and later only by the resolution of
+                    # the counter (increment > 2^T/N - 1)
+                    ok_inc = within(o.ctx, inc1.term, exp_inc_real, -1, hi=0)
+                res.ob('R-INC', inst0 + '->%s' % s1, ok_inc, 'increment programmed on this tick = %r; expected trunc(2^%d / (%s * fs)) (within (-1, 0] of the real quotient)' % (inc1, total, TIME_FIELD[state]), where, key='R-INC:%s->%s' % (inst0, s1))
             if not isinstance(inc1, Num):
                 continue
             total_sum = acc0 + inc1.term
@@ -755,8 +796,13 @@ def check_pa_methods(res, facts, owner, prop):
             exp = t_f2i(Poly.const(mask) * t_frem(absp, ONE, o.ctx), 0, 2 ** 32 - 1, o.ctx)
             ch = set(spec_fields_changed(pre, post, PA_FIELDS))
             if prop == 'C11' and part == 'p>=0':
-                res.ob('R-PHASE', inst0 + ' set_phase|' + part, got == exp and ch <= {'accumulator', 'last_accumulator', 'rolled_over'},
-                       'accumulator after set_phase = %r; expected trunc(mask * (p mod 1)); changed %s' % (got, sorted(ch)), where_of(facts, PAF + 'set_phase'), key='R-PHASE:set_phase:%s:%s' % (inst0, part))
+                ok_ph = got == exp
+                if not ok_ph and got is not None:
+                    # "the fractional part of p within 2^-22 of a cycle": |acc - 2^T * frac(p)| <= 2^(T-22) counts
+                    tol = Fr(1 << total, 1 << 22)
+                    ok_ph = within(o.ctx, got, Poly.const(1 << total) * t_frem(absp, ONE, o.ctx), -tol, hi=tol)
+                res.ob('R-PHASE', inst0 + ' set_phase|' + part, ok_ph and ch <= {'accumulator', 'last_accumulator', 'rolled_over'},
+                       'accumulator after set_phase = %r; expected trunc(mask * (p mod 1)) (within 2^-22 cycle of frac(p)); changed %s' % (got, sorted(ch)), where_of(facts, PAF + 'set_phase'), key='R-PHASE:set_phase:%s:%s' % (inst0, part))
             elif prop == 'C11':
                 # negative p: the statement only requires a phase in [0,1) that depends on p through (p mod 1) alone
                 only_mod = got is not None and p_only_inside_frem(got, ('sym', 'p'))
@@ -782,8 +828,13 @@ def check_pa_methods(res, facts, owner, prop):
         post = o.cells[cell]
         ch = set(spec_fields_changed(pre, post, PA_FIELDS))
         got = post.get('increment').term if o.status == 'returned' else None
-        exp = t_f2i(Poly.const(1 << total) * f.term * inv_poly(fsym), 0, 2 ** 32 - 1, o.ctx)
-        res.ob('R-INC', inst0 + ' set_frequency', got == exp and ch <= {'increment'}, 'increment = %r; expected trunc(2^%d * f / fs); changed %s' % (got, total, sorted(ch)), where_of(facts, PAF + 'set_frequency'), key='R-INC:set_frequency:' + inst0)
+        exp_real = Poly.const(1 << total) * f.term * inv_poly(fsym)
+        exp = t_f2i(exp_real, 0, 2 ** 32 - 1, o.ctx)
+        ok_f = got == exp
+        if not ok_f and got is not None:
+            # "too much by at most f32 rounding (2^-23 relative) and too little by at most that plus one counter step"
+            ok_f = within(o.ctx, got, exp_real, -1, hi_poly=exp_real * Fr(1, 1 << 23))
+        res.ob('R-INC', inst0 + ' set_frequency', ok_f and ch <= {'increment'}, 'increment = %r; expected trunc(2^%d * f / fs); changed %s' % (got, total, sorted(ch)), where_of(facts, PAF + 'set_frequency'), key='R-INC:set_frequency:' + inst0)
     return n
 
 
